@@ -36,9 +36,15 @@ TRAIN_FDR = 0.5
 CLASSES = {6: "HHHDLD", 7: "HHHDLDH", 8: "HHHDLDHH", 9: "HHHDLDHHL"}
 
 
+# variant 20 (used with the two-level "stepped" learner): the upper level holds 4 high targets + 1 decoy (accepted at 0.5
+# as a whole: (1+1)/4), the lower level 2 low targets + 2 decoys ((3+1)/6 > 0.5: rejected as a whole although a prefix
+# "targets first" of that tie group would pass)
+CLASSES_V = {20: "HHHHDLLDD"}
+
+
 def base_rows(n, variant=0):
     rows = []
-    for i, c in enumerate(CLASSES[n]):
+    for i, c in enumerate(CLASSES_V.get(variant, CLASSES[n])):
         key = {"H": 100.0, "D": 10.0, "L": 10.5}[c] + i + 0.25 * (variant % 10)
         if variant >= 10:
             key = -key  # the best single feature is lower-is-better
@@ -200,6 +206,11 @@ def check_case(case, acc, ref_cache=None):
         m = getattr(e, "model_", None)
         if cls == "crash":
             add("crash:" + exc_signature(e), f"Model.fit crashed for row order {perm}: {desc}")
+        if m is not None and cls != "crash" and "performs worse" in str(e) and hasattr(m.estimator, "log_"):
+            # the fit calls made before the refusal obey the label rule like any other
+            check_logs(rows, m.estimator.log_, add, case["kind"])
+        if cls == "crash":
+            pass
         elif m is not None and "performs worse" in str(e) and not refusal_justified(rows, m, case["max_iter"]):
             add("training-refused-although-targets-are-accepted",
                 f"Model.fit raised '{e}' for row order {perm}, shuffle={case['shuffle']}, although under the logged model "
@@ -437,6 +448,11 @@ def run(ctx):
         for perm in structured_perms(8, 200 if ctx.quick else 384):
             for shuffle in (True, False):
                 cases.append(dict(n=8, variant=variant, perm=perm, shuffle=shuffle, max_iter=3, kind="linear", seed=variant + 1))
+    # tied model scores: a two-level learner puts targets and decoys into one tie group at the training-FDR boundary
+    for perm in structured_perms(9, 600 if ctx.quick else 3840):
+        for shuffle in (True, False):
+            for mi in (2, 3):
+                cases.append(dict(n=9, variant=20, perm=perm, shuffle=shuffle, max_iter=mi, kind="stepped", seed=3))
     for n in (6, 7, 8):
         for kind in ("linear", "proba"):
             for mi in (1, 3):
